@@ -334,6 +334,7 @@ func execSeqRun(base *world.World, r seqRun, storeKind, embed string, seed int64
 func execPhase(base *world.World, tag string, phase int, steps []seqStep, storeKind, embed string, seed int64, dir string, useHTTP, withFaults bool) ([]any, error) {
 	r := seqRun{Steps: steps}
 	w := base.ForRun(tag, hashSeed(tag, seed))
+	w.P.BigExt = useHTTP // (reads through the HTTP API and the bundled client: very long checkpoints come back whole)
 	st, err := newStore(storeKind, dir)
 	if err != nil {
 		return nil, err
